@@ -11,10 +11,10 @@ import (
 // ScopeProg is a generated scoping program as a tree, so that it can be
 // shrunk structurally.
 type ScopeProg struct {
-	Root *Scope            `json:"root"`
-	Neg  string            `json:"neg,omitempty"` // kind of forbidden declaration injected ("" = positive program)
-	Names []string         `json:"names,omitempty"` // the name set (default a,b,c,d)
-	Tags map[string]string `json:"tags"`          // tag -> descriptor of the statement that logs it
+	Root  *Scope            `json:"root"`
+	Neg   string            `json:"neg,omitempty"`   // kind of forbidden declaration injected ("" = positive program)
+	Names []string          `json:"names,omitempty"` // the name set (default a,b,c,d)
+	Tags  map[string]string `json:"tags"`            // tag -> descriptor of the statement that logs it
 }
 
 type Param struct {
@@ -43,9 +43,9 @@ var scopeNames = []string{"a", "b", "c", "d"}
 
 type scopeGen struct {
 	names []string
-	r    *simrt.Rand
-	n    int
-	tags map[string]string
+	r     *simrt.Rand
+	n     int
+	tags  map[string]string
 }
 
 func (g *scopeGen) tag(desc string) string {
